@@ -237,6 +237,9 @@ func specCase(ctx context.Context, rep *mon.Reporter, rng *mon.Rand, cfg mon.Con
 		para := []string{"I", "S", "C", "T"}[rng.Intn(4)]
 		oneRun(ctx, rep, spec, r, in, ref, hs, para, rng.Uint64(), sample && l == 0)
 	}
+	for f := 0; f < 3; f++ {
+		failureRun(ctx, rep, rng, spec, r, in, ref)
+	}
 }
 
 func oneRun(ctx context.Context, rep *mon.Reporter, spec *gspec.GraphSpec, r compose.Runnable[gspec.V, gspec.V], in gspec.V, ref *gspec.RefResult, hs []hspec, para string, seed uint64, sample bool) {
